@@ -35,6 +35,7 @@ import (
 	"go/parser"
 	"go/printer"
 	"go/token"
+	"go/types"
 	"path/filepath"
 	"sort"
 	"strconv"
@@ -54,6 +55,9 @@ func init() {
 type c05eX struct {
 	t    *tr
 	fset *token.FileSet
+	// canonical names of receivers, parameters, results and local variables (by what defines them, not by how they
+	// are spelled): the emitted texts do not change when a local is renamed
+	names map[*ast.Object]string
 }
 
 func (x *c05eX) fail(n ast.Node, format string, a ...any) {
@@ -61,10 +65,244 @@ func (x *c05eX) fail(n ast.Node, format string, a ...any) {
 	x.t.errs = append(x.t.errs, msg)
 }
 
-func (x *c05eX) src(n ast.Node) string {
+// rawSrc: the source text as written
+func (x *c05eX) rawSrc(n ast.Node) string {
 	var b bytes.Buffer
 	_ = printer.Fprint(&b, x.fset, n)
 	return strings.Join(strings.Fields(b.String()), " ")
+}
+
+// src: the source text with every receiver / parameter / result / local variable spelled canonically
+func (x *c05eX) src(n ast.Node) string {
+	type saved struct {
+		id   *ast.Ident
+		name string
+	}
+	var undo []saved
+	keys := map[*ast.Ident]bool{} // `field: value` of a composite literal: the key is a field name, not a variable
+	ast.Inspect(n, func(m ast.Node) bool {
+		if cl, ok := m.(*ast.CompositeLit); ok {
+			for _, el := range cl.Elts {
+				if kv, ok := el.(*ast.KeyValueExpr); ok {
+					if id, ok := kv.Key.(*ast.Ident); ok {
+						keys[id] = true
+					}
+				}
+			}
+		}
+		return true
+	})
+	ast.Inspect(n, func(m ast.Node) bool {
+		if id, ok := m.(*ast.Ident); ok && id.Obj != nil && !keys[id] {
+			if cn, ok := x.names[id.Obj]; ok {
+				undo = append(undo, saved{id, id.Name})
+				id.Name = cn
+			}
+		}
+		return true
+	})
+	out := x.rawSrc(n)
+	for _, u := range undo {
+		u.id.Name = u.name
+	}
+	return out
+}
+
+const c05eRecv = "‹recv›"
+
+// c05eCancel: the cancel function of `ctx, cancel := context.WithCancel(ctx)` where ctx is the first parameter
+const c05eCancel = "‹WithCancel(arg0)#1›"
+
+// rhsBase: what defines a variable: the callee with its (canonical) arguments, `rx:<channel>` for a receive,
+// `assert:<type>` … — so that the name of a variable is determined by how it is computed, not by how it is spelled
+func (x *c05eX) rhsBase(e ast.Expr) string {
+	short := func(s string) string {
+		s = c05eAbbrev(strings.ReplaceAll(s, c05eRecv+".", ""))
+		if len([]rune(s)) > 60 {
+			return ""
+		}
+		return s
+	}
+	switch v := e.(type) {
+	case *ast.CallExpr:
+		name := x.callName(v)
+		var as []string
+		for _, a := range v.Args {
+			switch a.(type) {
+			case *ast.Ident, *ast.SelectorExpr:
+				as = append(as, x.src(a))
+			default:
+				as = append(as, "…")
+			}
+		}
+		if t := short(strings.Join(as, ",")); t != "" && len(as) > 0 {
+			return name + "(" + t + ")"
+		}
+		return name
+	case *ast.UnaryExpr:
+		if v.Op == token.ARROW {
+			return "rx:" + short(x.src(v.X))
+		}
+		if v.Op == token.AND {
+			return "lit"
+		}
+	case *ast.TypeAssertExpr:
+		if v.Type != nil {
+			return "assert:" + short(x.src(v.Type))
+		}
+		return "assert"
+	case *ast.FuncLit:
+		return "func"
+	case *ast.CompositeLit:
+		return "lit"
+	case *ast.BasicLit:
+		return "const"
+	case *ast.Ident, *ast.SelectorExpr:
+		return "copy:" + short(x.src(e))
+	}
+	return "expr"
+}
+
+// c05eAbbrev: inside the name of a variable the names of other variables are abbreviated to what defines them without
+// ITS arguments: ‹WithCancel(‹arg0›)#0› -> WithCancel#0 (names stay short, one level of "computed from" is kept)
+func c05eAbbrev(s string) string {
+	rs := []rune(s)
+	var out []rune
+	for i := 0; i < len(rs); i++ {
+		if rs[i] != '‹' {
+			out = append(out, rs[i])
+			continue
+		}
+		depth, j := 0, i
+		for ; j < len(rs); j++ {
+			if rs[j] == '‹' {
+				depth++
+			} else if rs[j] == '›' {
+				depth--
+				if depth == 0 {
+					break
+				}
+			}
+		}
+		if j >= len(rs) {
+			out = append(out, rs[i:]...)
+			break
+		}
+		inner := rs[i+1 : j]
+		// drop the parenthesised argument list
+		var name []rune
+		pd := 0
+		for _, r := range inner {
+			switch {
+			case r == '(':
+				pd++
+			case r == ')':
+				pd--
+			case pd == 0:
+				name = append(name, r)
+			}
+		}
+		out = append(out, name...)
+		i = j
+	}
+	return string(out)
+}
+
+// nameFunc fills x.names for one function: ‹recv›, ‹argK›, ‹resK›, and for a variable defined by `a, b := f(…)` the
+// name ‹f#0› / ‹f#1› (‹f› when it is the only one; `@k` for the k-th definition of that kind in the function)
+func (x *c05eX) nameFunc(fd *ast.FuncDecl) {
+	set := func(id *ast.Ident, name string) {
+		if id == nil || id.Obj == nil || id.Name == "_" {
+			return
+		}
+		if _, dup := x.names[id.Obj]; !dup {
+			x.names[id.Obj] = name
+		}
+	}
+	if fd.Recv != nil {
+		for _, f := range fd.Recv.List {
+			for _, n := range f.Names {
+				set(n, c05eRecv)
+			}
+		}
+	}
+	k := 0
+	for _, f := range fd.Type.Params.List {
+		for _, n := range f.Names {
+			set(n, fmt.Sprintf("‹arg%d›", k))
+			k++
+		}
+	}
+	if fd.Type.Results != nil {
+		k = 0
+		for _, f := range fd.Type.Results.List {
+			for _, n := range f.Names {
+				set(n, fmt.Sprintf("‹res%d›", k))
+				k++
+			}
+		}
+	}
+	if fd.Body == nil {
+		return
+	}
+	counts := map[string]int{}
+	uniq := func(base string) string {
+		counts[base]++
+		if counts[base] > 1 {
+			return fmt.Sprintf("%s@%d", base, counts[base])
+		}
+		return base
+	}
+	ast.Inspect(fd.Body, func(n ast.Node) bool {
+		switch s := n.(type) {
+		case *ast.AssignStmt:
+			if s.Tok != token.DEFINE {
+				return true
+			}
+			defines := func(id *ast.Ident) bool { return id.Obj != nil && id.Obj.Decl == s }
+			if len(s.Rhs) == 1 && len(s.Lhs) > 1 {
+				base := uniq(x.rhsBase(s.Rhs[0]))
+				for i, l := range s.Lhs {
+					if id, ok := l.(*ast.Ident); ok && defines(id) {
+						set(id, fmt.Sprintf("‹%s#%d›", base, i))
+					}
+				}
+			} else {
+				for i, l := range s.Lhs {
+					if id, ok := l.(*ast.Ident); ok && defines(id) && i < len(s.Rhs) {
+						set(id, "‹"+uniq(x.rhsBase(s.Rhs[i]))+"›")
+					}
+				}
+			}
+		case *ast.ValueSpec:
+			for i, id := range s.Names {
+				base := "var"
+				if i < len(s.Values) {
+					base = x.rhsBase(s.Values[i])
+				}
+				set(id, "‹"+uniq(base)+"›")
+			}
+		case *ast.RangeStmt:
+			if s.Tok == token.DEFINE {
+				base := uniq("range")
+				if id, ok := s.Key.(*ast.Ident); ok {
+					set(id, "‹"+base+"#0›")
+				}
+				if id, ok := s.Value.(*ast.Ident); ok {
+					set(id, "‹"+base+"#1›")
+				}
+			}
+		case *ast.FuncLit:
+			k := 0
+			for _, f := range s.Type.Params.List {
+				for _, id := range f.Names {
+					set(id, fmt.Sprintf("‹%s#%d›", uniq("litarg"), k))
+					k++
+				}
+			}
+		}
+		return true
+	})
 }
 
 func c05eFind(files []*ast.File, recv, name string) *ast.FuncDecl {
@@ -107,6 +345,11 @@ func (x *c05eX) callName(c *ast.CallExpr) string {
 			}
 			return "close:" + x.src(c.Args[0])
 		}
+		if f.Obj != nil {
+			if cn, ok := x.names[f.Obj]; ok {
+				return cn // a function-valued parameter or local (`cancel`, `cancelStart`, `gracefulShutdown`)
+			}
+		}
 		return f.Name
 	case *ast.SelectorExpr:
 		return f.Sel.Name
@@ -117,7 +360,7 @@ func (x *c05eX) callName(c *ast.CallExpr) string {
 }
 
 func (x *c05eX) isLogCall(c *ast.CallExpr) bool {
-	s := x.src(c.Fun)
+	s := x.rawSrc(c.Fun)
 	return strings.Contains(s, ".log.") || strings.HasPrefix(s, "log.") && !strings.HasSuffix(s, ".Fatal") && !strings.HasSuffix(s, ".Panic") ||
 		s == "ent.Write" || strings.HasPrefix(s, "zap.")
 }
@@ -133,6 +376,9 @@ type c05eWalker struct {
 func (w *c05eWalker) callEvent(c *ast.CallExpr) (string, bool) {
 	name := w.x.callName(c)
 	how, ok := w.watch[name]
+	if !ok && strings.HasPrefix(name, "close:") {
+		how, ok = w.watch["close:*"] // the close of any channel
+	}
 	if !ok {
 		return "", false
 	}
@@ -309,9 +555,22 @@ func (p c05ePath) add(ev ...string) c05ePath {
 	return n
 }
 
+// isErrIdent: a variable of type error (by its type where the package is type-checked: core/engine; by the
+// conventional name `err` in cli/cli.go, which is only parsed)
 func (w *c05eWalker) isErrIdent(e ast.Expr) bool {
 	id, ok := e.(*ast.Ident)
-	return ok && id.Name == "err"
+	if !ok {
+		return false
+	}
+	if info := w.x.t.pkg.TypesInfo; info != nil {
+		if obj := info.ObjectOf(id); obj != nil {
+			if v, ok := obj.(*types.Var); ok && !v.IsField() {
+				return v.Type().String() == "error"
+			}
+			return false
+		}
+	}
+	return id.Name == "err"
 }
 
 // errAssigned: the statement assigns `err` from a call -> that call's name
@@ -908,7 +1167,7 @@ func (x *c05eX) guardExpr(e ast.Expr, recv string) string {
 			}
 		}
 	case *ast.CallExpr:
-		if x.src(v.Fun) == recv+".isStartFinished" && len(v.Args) == 0 {
+		if x.rawSrc(v.Fun) == recv+".isStartFinished" && len(v.Args) == 0 {
 			return "startFinished"
 		}
 	}
@@ -919,8 +1178,15 @@ func (x *c05eX) guardExpr(e ast.Expr, recv string) string {
 // ---------------------------------------------------------------- the area
 
 func c05engineExtra(t *tr) string {
-	x := &c05eX{t: t, fset: t.pkg.Fset}
+	x := &c05eX{t: t, fset: t.pkg.Fset, names: map[*ast.Object]string{}}
 	files := t.pkg.Syntax
+	for _, f := range files {
+		for _, d := range f.Decls {
+			if fd, ok := d.(*ast.FuncDecl); ok {
+				x.nameFunc(fd)
+			}
+		}
+	}
 	var b strings.Builder
 	b.WriteString("open Pandora.Model.C05\n\n")
 
@@ -938,11 +1204,10 @@ func c05engineExtra(t *tr) string {
 	// onErrAwaited
 	if fd := need("runAwaitHandle", "onErrAwaited"); fd != nil {
 		w := walker(map[string]string{})
-		recv := fd.Recv.List[0].Names[0].Name
 		ps := w.paths(fd.Body.List)
 		for i := range ps {
 			for j := range ps[i] {
-				ps[i][j] = strings.ReplaceAll(ps[i][j], recv+".", "")
+				ps[i][j] = strings.ReplaceAll(ps[i][j], c05eRecv+".", "")
 			}
 		}
 		b.WriteString(c05eLeanPaths("onErrAwaited", "regenerated from `core/engine/engine.go` `(*runAwaitHandle).onErrAwaited` (receiver prefix dropped)", ps))
@@ -963,7 +1228,7 @@ func c05engineExtra(t *tr) string {
 			x.fail(fd, "awaitRun is not `for cond { select {…} }`")
 		} else {
 			fmt.Fprintf(&b, "/-- regenerated from `(*runAwaitHandle).awaitRun`: the loop condition -/\ndef awaitLoopCond : String := %s\n\n",
-				c05eQuote(strings.ReplaceAll(x.src(loop.Cond), recv+".", "")))
+				c05eQuote(strings.ReplaceAll(x.src(loop.Cond), c05eRecv+".", "")))
 			w := walker(map[string]string{"IsCtxError": "arg0", "WithMessage": "str", "onErrAwaited": "",
 				"checkAllInstancesAreFinished": "", "instanceStartCancel": "", "isStartFinished": "", "runCancel": ""})
 			var names []string
@@ -991,7 +1256,7 @@ func c05engineExtra(t *tr) string {
 				ps := w.paths(cc.Body)
 				for i := range ps {
 					for j := range ps[i] {
-						ps[i][j] = strings.ReplaceAll(ps[i][j], recv+".", "")
+						ps[i][j] = strings.ReplaceAll(ps[i][j], c05eRecv+".", "")
 					}
 				}
 				b.WriteString(c05eLeanPaths("await_"+ch, "regenerated from `(*runAwaitHandle).awaitRun`: the body of `case … := <-"+recv+"."+ch+"` (receiver prefix dropped)", ps))
@@ -1024,7 +1289,7 @@ func c05engineExtra(t *tr) string {
 					ps := w.paths(fd.Body.List[2:])
 					for i := range ps {
 						for j := range ps[i] {
-							ps[i][j] = strings.ReplaceAll(ps[i][j], recv+".", "")
+							ps[i][j] = strings.ReplaceAll(ps[i][j], c05eRecv+".", "")
 						}
 					}
 					b.WriteString(c05eLeanPaths("checkAllEffects", "regenerated from `checkAllInstancesAreFinished`: what happens once the guard holds", ps))
@@ -1036,11 +1301,10 @@ func c05engineExtra(t *tr) string {
 		}
 	}
 	if fd := need("runAwaitHandle", "isStartFinished"); fd != nil {
-		recv := fd.Recv.List[0].Names[0].Name
 		txt := ""
 		if len(fd.Body.List) == 1 {
 			if r, ok := fd.Body.List[0].(*ast.ReturnStmt); ok && len(r.Results) == 1 {
-				txt = strings.ReplaceAll(x.src(r.Results[0]), recv+".", "")
+				txt = strings.ReplaceAll(x.src(r.Results[0]), c05eRecv+".", "")
 			}
 		}
 		fmt.Fprintf(&b, "/-- regenerated from `(*runAwaitHandle).isStartFinished` -/\ndef isStartFinished : String := %s\n\n", c05eQuote(txt))
@@ -1049,7 +1313,7 @@ func c05engineExtra(t *tr) string {
 		// the initial value of toWait
 		val := ""
 		ast.Inspect(fd, func(n ast.Node) bool {
-			if kv, ok := n.(*ast.KeyValueExpr); ok && x.src(kv.Key) == "toWait" {
+			if kv, ok := n.(*ast.KeyValueExpr); ok && x.rawSrc(kv.Key) == "toWait" {
 				if tv, ok := t.pkg.TypesInfo.Types[kv.Value]; ok && tv.Value != nil {
 					val = tv.Value.ExactString()
 				}
@@ -1065,7 +1329,7 @@ func c05engineExtra(t *tr) string {
 
 	// instancePool.Run
 	if fd := need("instancePool", "Run"); fd != nil {
-		w := walker(map[string]string{"onWaitDone": "", "warmUpGun": "", "runAsync": "", "awaitRunAsync": "", "cancel": ""})
+		w := walker(map[string]string{"onWaitDone": "", "warmUpGun": "", "runAsync": "", "awaitRunAsync": "", c05eCancel: ""})
 		b.WriteString(c05eLeanPaths("poolRun", "regenerated from `(*instancePool).Run`", w.paths(fd.Body.List)))
 	}
 	if fd := need("instancePool", "awaitRunAsync"); fd != nil {
@@ -1119,6 +1383,27 @@ func c05engineExtra(t *tr) string {
 	if fd := need("instancePool", "runAsync"); fd != nil {
 		w := walker(map[string]string{"WithCancel": "arg0", "buildNewInstanceSchedule": "", "Run": "recv+arg0", "startInstances": "arg0"})
 		b.WriteString(c05eLeanPaths("runAsync", "regenerated from `(*instancePool).runAsync` (context tree, what is started)", w.paths(fd.Body.List)))
+		// the handle it returns: which value goes into which field
+		var pairs []string
+		ast.Inspect(fd.Body, func(n ast.Node) bool {
+			r, ok := n.(*ast.ReturnStmt)
+			if !ok || len(r.Results) == 0 {
+				return true
+			}
+			e := r.Results[0]
+			if u, ok := e.(*ast.UnaryExpr); ok && u.Op == token.AND {
+				e = u.X
+			}
+			if cl, ok := e.(*ast.CompositeLit); ok {
+				for _, el := range cl.Elts {
+					if kv, ok := el.(*ast.KeyValueExpr); ok {
+						pairs = append(pairs, "("+c05eQuote(x.rawSrc(kv.Key))+", "+c05eQuote(x.src(kv.Value))+")")
+					}
+				}
+			}
+			return true
+		})
+		fmt.Fprintf(&b, "/-- regenerated from `runAsync`: the fields of the handle it returns and the values stored in them -/\ndef runAsyncHandle : List (String × String) := [%s]\n\n", strings.Join(pairs, ", "))
 	}
 
 	if fd := need("instancePool", "buildNewInstanceSchedule"); fd != nil {
@@ -1139,14 +1424,14 @@ func c05engineExtra(t *tr) string {
 		if cb == nil {
 			x.fail(fd, "no callback literal passed to NewCallbackOnFinishSchedule")
 		} else {
-			w := walker(map[string]string{"cancelStart": ""})
+			w := walker(map[string]string{"‹arg1›": ""}) // cancelStart, the second parameter
 			b.WriteString(c05eLeanPaths("sharedScheduleFinished", "regenerated from `buildNewInstanceSchedule`: the on-finish callback of the shared RPS schedule", w.paths(cb.Body.List)))
 		}
 	}
 
 	// Engine.Run / Wait
 	if fd := need("Engine", "Run"); fd != nil {
-		w := walker(map[string]string{"Add": "", "newPool": "arg2", "Run": "", "WithMessage": "arg0", "Err": "", "cancel": ""})
+		w := walker(map[string]string{"Add": "", "newPool": "arg2", "Run": "", "WithMessage": "arg0", "Err": "", c05eCancel: ""})
 		b.WriteString(c05eLeanPaths("engineRun", "regenerated from `(*Engine).Run`", w.paths(fd.Body.List)))
 	}
 	if fd := need("Engine", "Wait"); fd != nil {
@@ -1165,9 +1450,9 @@ func c05engineExtra(t *tr) string {
 			}
 		}
 		ast.Inspect(fd, func(n ast.Node) bool {
-			if kv, ok := n.(*ast.KeyValueExpr); ok && x.src(kv.Key) == "onWaitDone" {
+			if kv, ok := n.(*ast.KeyValueExpr); ok && x.rawSrc(kv.Key) == "onWaitDone" {
 				for k, pn := range pnames {
-					if x.src(kv.Value) == pn {
+					if x.rawSrc(kv.Value) == pn {
 						idx = k
 					}
 				}
@@ -1183,6 +1468,11 @@ func c05engineExtra(t *tr) string {
 	if err != nil {
 		t.errs = append(t.errs, "parse "+cliPath+": "+err.Error())
 	} else {
+		for _, d := range cf.Decls {
+			if fd, ok := d.(*ast.FuncDecl); ok {
+				x.nameFunc(fd)
+			}
+		}
 		if fd := c05eFind([]*ast.File{cf}, "", "awaitPandoraTermination"); fd == nil {
 			t.errs = append(t.errs, "c05engine: awaitPandoraTermination not found in cli/cli.go")
 		} else {
@@ -1196,22 +1486,51 @@ func c05engineExtra(t *tr) string {
 			if outer != nil {
 				for _, c := range outer.Body.List {
 					cc := c.(*ast.CommClause)
-					if cc.Comm != nil && x.src(cc.Comm) == "err := <-errs" {
+					// the case that receives from a PARAMETER of the function (the channel of Engine.Run's result);
+					// the other one receives from the local signal channel
+					fromParam := false
+					if cc.Comm != nil {
+						ast.Inspect(cc.Comm, func(n ast.Node) bool {
+							if u, ok := n.(*ast.UnaryExpr); ok && u.Op == token.ARROW {
+								if id, ok := u.X.(*ast.Ident); ok && id.Obj != nil {
+									_, fromParam = id.Obj.Decl.(*ast.Field)
+								}
+							}
+							return true
+						})
+					}
+					if fromParam {
 						clause = cc
 					}
 				}
 			}
 			if clause == nil {
-				x.fail(fd, "no `case err := <-errs` in the outer select of awaitPandoraTermination")
+				x.fail(fd, "no case of the outer select of awaitPandoraTermination receives from a parameter")
 			} else {
-				w := walker(map[string]string{"gracefulShutdown": "", "Wait": "", "Fatal": "", "Exit": "", "Panic": ""})
+				w := walker(map[string]string{"‹arg1›": "", "Wait": "", "Fatal": "", "Exit": "", "Panic": ""}) // ‹arg1›: gracefulShutdown
 				b.WriteString(c05eLeanPaths("cliEngineReturned", "regenerated from `cli/cli.go` `awaitPandoraTermination`: the branch taken when `Engine.Run` returns before a signal", w.paths(clause.Body)))
+			}
+			// the other case of the outer select: a signal
+			var sigClause *ast.CommClause
+			if outer != nil {
+				for _, c := range outer.Body.List {
+					cc := c.(*ast.CommClause)
+					if cc.Comm != nil && cc != clause {
+						sigClause = cc
+					}
+				}
+			}
+			if sigClause == nil || outer == nil || len(outer.Body.List) != 2 {
+				x.fail(fd, "the outer select of awaitPandoraTermination is not {signal, errs}")
+			} else {
+				w := walker(map[string]string{"‹arg1›": "", "Wait": "", "Fatal": "", "Exit": "", "Panic": "", "close:*": "", "After": ""})
+				b.WriteString(c05eLeanPaths("cliSignalled", "regenerated from `cli/cli.go` `awaitPandoraTermination`: the branch taken when a signal arrives first (`"+x.src(sigClause.Comm)+"`)", w.paths(sigClause.Body)))
 			}
 		}
 		if fd := c05eFind([]*ast.File{cf}, "", "runEngine"); fd == nil {
 			t.errs = append(t.errs, "c05engine: runEngine not found in cli/cli.go")
 		} else {
-			w := walker(map[string]string{"Run": "", "cancel": ""})
+			w := walker(map[string]string{"Run": "", c05eCancel: ""})
 			b.WriteString(c05eLeanPaths("cliRunEngine", "regenerated from `cli/cli.go` `runEngine`", w.paths(fd.Body.List)))
 		}
 	}
